@@ -36,7 +36,6 @@ impl AsyncMemoryFS {
             handle: Arc::new(RwLock::new(AsyncMemoryFsImpl::new())),
         }
     }
-
 }
 
 impl Default for AsyncMemoryFS {
